@@ -57,7 +57,8 @@ Lemma server_auth_bad : forall c q o k,
   opt_mac o <> mac k (macin_rx o q) -> server_auth c q = AuthBad.
 Proof.
   intros c q o k Hf [H1 [H2 [H3 [H4 [H5 H6]]]]] Hk Hm. unfold ScionGlue.server_auth.
-  rewrite Hf. apply Z.leb_le in H1. rewrite H1, H2, Z.eqb_refl. simpl. rewrite H3, H4, Z.eqb_refl, H5, H6, !Z.eqb_refl. simpl.
+  rewrite Hf. apply Z.leb_le in H1. rewrite H1, H2, Z.eqb_refl. simpl. rewrite H3. cbv beta iota.
+  rewrite H4, H5, H6, !Z.eqb_refl. simpl.
   unfold keyreq_of in Hk. rewrite Hk. rewrite (bytes_eqb_neq _ _ Hm). rewrite andb_false_r. reflexivity.
 Qed.
 
@@ -71,9 +72,9 @@ Proof.
   destruct (3 <=? zlen (rx_layers q)) eqn:H1; [|discriminate]. simpl in H.
   destruct (second_last_layer (rx_layers q) =? LT_E2E) eqn:H2; [|discriminate].
   destruct (find_opt OPT_AUTH (rx_opts q)) as [o'|] eqn:H3; [|discriminate].
-  destruct (zlen (o_data o') =? auth_opt_data_len) eqn:H4; [|discriminate].
   destruct (opt_spi o' =? spi_client) eqn:H5; [|discriminate]. simpl in H.
   destruct (opt_algo o' =? auth_algorithm) eqn:H6; [|discriminate].
+  destruct (zlen (o_data o') =? auth_opt_data_len) eqn:H4; [|discriminate].
   destruct (fetch_key _) as [k'|] eqn:Hk; [|discriminate].
   destruct (mac_computable (rx_hdr q)) eqn:Hc; [|discriminate]. simpl in H.
   destruct (bytes_eqb (opt_mac o') (mac k' (macin_rx o' q))) eqn:Hm; [|discriminate].
@@ -292,7 +293,7 @@ Lemma reply_auth_roundtrip : forall c q oob k o s n p t,
   server_auth c q = AuthOk k o -> rx_l4 q = Udp s (s_local_port c) n p ->
   server_step c q oob = Send ToLastHop t ->
   let h := rx_hdr q in
-  let cc := mkCcfg (Some k) (h_src_ia h) (h_src_raw h) (h_dst_ia h) (h_dst_raw h) in
+  let cc := mkCcfg (Some k) (h_src_ia h) (h_src_raw h) (h_dst_ia h) (h_dst_raw h) true in
   forall nok, exists o',
     carries spi_server (deliver t nok) o' /\
     opt_mac o' = mac k (macin_rx o' (deliver t nok)) /\
@@ -540,6 +541,35 @@ Proof.
   destruct Hm as [m Hm]. rewrite Hm. exact (client_check_acc_addr mac c q n a Hc).
 Qed.
 
+(* ---- the client without a key skips responses that carry the server's authenticator ---- *)
+Lemma client_auth_nokey_bad : forall mac c q o,
+  c_key c = None -> c_auth c = true -> carries spi_server q o -> client_auth mac c q = AuthBad.
+Proof.
+  intros mac c q o Hk Ha [H1 [H2 [H3 [H4 [H5 H6]]]]]. unfold ScionGlue.client_auth.
+  apply Z.leb_le in H1. rewrite H1, H2, Z.eqb_refl, Hk, Ha. simpl. rewrite H3. cbv beta iota.
+  rewrite H4, H5, H6, !Z.eqb_refl. reflexivity.
+Qed.
+
+Lemma cli_nokey_on_model : forall mac c rs macs,
+  c_key c = None -> c_auth c = true -> length macs = length rs ->
+  Forall (fun r => wf_layers (fst r)) rs ->
+  C13_cli_nokey_ok true false (combine (map fst rs) macs) (accepted_of (client_run mac c false 0 rs)) = true.
+Proof.
+  intros mac c rs macs Hk Ha Hlen Hwf. unfold C13_cli_nokey_ok. cbn [andb negb].
+  destruct (client_run mac c false 0 rs) as [j a| |] eqn:Hr; try reflexivity. cbn [accepted_of].
+  destruct (client_run_accept mac c rs false 0%nat j a Hr) as [q [n [Hn [Hc _]]]].
+  replace (j - 0)%nat with j in Hn by lia.
+  assert (Hm : exists m, nth_error (combine (map fst rs) macs) j = Some (q, m)).
+  { clear Hr Hc Hwf. revert j macs Hlen Hn. induction rs as [|[q0 n0] rs IH]; intros [|j] [|m macs] Hlen Hn; simpl in *; try discriminate.
+    - inversion Hn; subst. eexists; reflexivity.
+    - apply IH; [lia|exact Hn]. }
+  destruct Hm as [m Hm]. rewrite Hm.
+  destruct (carries_auth spi_server q) as [o|] eqn:Hca; [|reflexivity]. exfalso.
+  assert (Hw : wf_layers q).
+  { rewrite Forall_forall in Hwf. apply nth_error_In in Hn. exact (Hwf _ Hn). }
+  exact (client_check_acc_not_bad mac c q n a Hc (client_auth_nokey_bad mac c q o Hk Ha (carries_auth_carries _ _ _ Hw Hca))).
+Qed.
+
 (* ---- the server oracle holds for the model on all inputs ---- *)
 (* what the harness sockets see of one listener step: nothing for a drop; the
    reply, serialised and re-parsed, at the socket the request came from (the
@@ -574,8 +604,31 @@ Lemma server_auth_decided : forall c q o k,
     if mac_computable (rx_hdr q) && bytes_eqb (opt_mac o) (mac k (macin_rx o q)) then AuthOk k o else AuthBad.
 Proof.
   intros c q o k Hf [H1 [H2 [H3 [H4 [H5 H6]]]]] Hk. unfold ScionGlue.server_auth.
-  rewrite Hf. apply Z.leb_le in H1. rewrite H1, H2, Z.eqb_refl. simpl. rewrite H3, H4, Z.eqb_refl, H5, H6, !Z.eqb_refl. simpl.
+  rewrite Hf. apply Z.leb_le in H1. rewrite H1, H2, Z.eqb_refl. simpl. rewrite H3. cbv beta iota.
+  rewrite H4, H5, H6, !Z.eqb_refl. simpl.
   unfold keyreq_of in Hk. rewrite Hk. reflexivity.
+Qed.
+
+(* an authenticator of the time service (client SPI, algorithm) directly in front of the L4 layer
+   whose data does not have 28 bytes, or for which no key is to be had, is a failed authentication *)
+Definition claims (spi : Z) (q : rx) (o : opt) : Prop :=
+  3 <= zlen (rx_layers q) /\ second_last_layer (rx_layers q) = LT_E2E /\
+  find_opt OPT_AUTH (rx_opts q) = Some o /\ opt_spi o = spi /\ opt_algo o = auth_algorithm.
+
+Lemma server_auth_wrong_length : forall c q o,
+  s_fetcher c = true -> claims spi_client q o -> zlen (o_data o) <> auth_opt_data_len -> server_auth c q = AuthBad.
+Proof.
+  intros c q o Hf [H1 [H2 [H3 [H5 H6]]]] Hl. unfold ScionGlue.server_auth.
+  rewrite Hf. apply Z.leb_le in H1. rewrite H1, H2, Z.eqb_refl. simpl. rewrite H3. cbv beta iota.
+  rewrite H5, H6, !Z.eqb_refl. simpl. apply Z.eqb_neq in Hl. rewrite Hl. reflexivity.
+Qed.
+
+Lemma server_auth_no_key : forall c q o,
+  s_fetcher c = true -> carries spi_client q o -> fetch_key (keyreq_of q) = None -> server_auth c q = AuthBad.
+Proof.
+  intros c q o Hf [H1 [H2 [H3 [H4 [H5 H6]]]]] Hk. unfold ScionGlue.server_auth.
+  rewrite Hf. apply Z.leb_le in H1. rewrite H1, H2, Z.eqb_refl. simpl. rewrite H3. cbv beta iota.
+  rewrite H4, H5, H6, !Z.eqb_refl. simpl. unfold keyreq_of in Hk. rewrite Hk. reflexivity.
 Qed.
 
 Lemma auth_bad_dropped : forall c q oob s n p,
@@ -586,6 +639,16 @@ Proof.
   unfold ScionGlue.server_step. rewrite Hl, Ha, Z.eqb_refl. simpl.
   repeat dmg; eauto.
 Qed.
+
+Lemma wrong_length_dropped : forall c q oob o s n p,
+  s_fetcher c = true -> claims spi_client q o -> zlen (o_data o) <> auth_opt_data_len ->
+  rx_l4 q = Udp s (s_local_port c) n p -> exists why, server_step c q oob = Drop why.
+Proof. intros c q oob o s n p Hf Hc Hl Hu. exact (auth_bad_dropped c q oob s n p (server_auth_wrong_length c q o Hf Hc Hl) Hu). Qed.
+
+Lemma no_key_dropped : forall c q oob o s n p,
+  s_fetcher c = true -> carries spi_client q o -> fetch_key (keyreq_of q) = None ->
+  rx_l4 q = Udp s (s_local_port c) n p -> exists why, server_step c q oob = Drop why.
+Proof. intros c q oob o s n p Hf Hc Hk Hu. exact (auth_bad_dropped c q oob s n p (server_auth_no_key c q o Hf Hc Hk) Hu). Qed.
 
 Lemma for_service_inv : forall lp q,
   for_service lp q = true -> exists s n p, rx_l4 q = Udp s lp n p /\ (lp =? endhost_port) = false.
@@ -859,17 +922,17 @@ Qed.
 
 (* ---- the listener without a key (daemon error / malformed key): the oracle of
         that situation holds for the model ---- *)
-Lemma server_auth_nokey : forall c q, fetch_key (keyreq_of q) = None -> server_auth c q = NoAuth.
+Lemma server_auth_nokey : forall c q k0 o, fetch_key (keyreq_of q) = None -> server_auth c q <> AuthOk k0 o.
 Proof.
-  intros c q Hk. unfold ScionGlue.server_auth. unfold keyreq_of in Hk. rewrite Hk.
-  repeat dmg; reflexivity.
+  intros c q k0 o Hk H. destruct (server_auth_ok_inv mac reverse fetch_key ntp_handle c q k0 o H) as [_ [_ [H' _]]]. congruence.
 Qed.
 
 Lemma unauth_reply_plain : forall c q oob t s d n p,
-  server_auth c q = NoAuth -> rx_l4 q = Udp s d n p ->
+  (forall k0 o, server_auth c q <> AuthOk k0 o) -> rx_l4 q = Udp s d n p ->
   server_step c q oob = Send ToLastHop t -> tx_e2e t = None.
 Proof.
-  intros c q oob t s d n p Ha Hl H. unfold ScionGlue.server_step in H. rewrite Hl, Ha in H.
+  intros c q oob t s d n p Ha Hl H. unfold ScionGlue.server_step in H. rewrite Hl in H.
+  destruct (server_auth c q) as [|k0 o0|] eqn:E; [| exfalso; exact (Ha k0 o0 eq_refl) |];
   repeat (dmh H; try discriminate); inversion H; reflexivity.
 Qed.
 
@@ -882,12 +945,46 @@ Proof.
   rewrite Hl, andb_false_r. reflexivity.
 Qed.
 
+Lemma claims_auth_claims : forall spi q o, wf_layers q -> claims_auth spi q = Some o -> claims spi q o.
+Proof.
+  intros spi q o Hwf H. unfold claims_auth in H.
+  destruct (rx_ok q); [|discriminate]. simpl in H.
+  destruct (existsb _ (rx_layers q)) eqn:He; [|discriminate].
+  destruct (find_opt OPT_AUTH (rx_opts q)) as [o'|] eqn:Hf; [|discriminate].
+  destruct (opt_spi o' =? spi) eqn:H2; [|discriminate]. simpl in H.
+  destruct (opt_algo o' =? auth_algorithm) eqn:H3; [|discriminate].
+  inversion H; subst. destruct (Hwf He) as [Ha Hb]. apply Z.eqb_eq in H2, H3. unfold claims. tauto.
+Qed.
+
+Lemma srv_maclen_oracle_on_model : forall c q oob,
+  wf_layers q -> C13_srv_maclen_ok (s_fetcher c) (s_local_port c) q (obs_of c q oob) = true.
+Proof.
+  intros c q oob Hwf. unfold C13_srv_maclen_ok.
+  destruct (claims_auth spi_client q) as [o|] eqn:Hc; [|reflexivity].
+  destruct (s_fetcher c) eqn:Hf; [|reflexivity].
+  destruct (for_service (s_local_port c) q) eqn:Hs; [|reflexivity].
+  destruct (zlen (o_data o) =? auth_opt_data_len) eqn:Hl; [reflexivity|]. cbn [andb negb].
+  destruct (for_service_inv _ _ Hs) as [s [n [p [Hu _]]]]. apply Z.eqb_neq in Hl.
+  destruct (wrong_length_dropped c q oob o s n p Hf (claims_auth_claims _ _ _ Hwf Hc) Hl Hu) as [why Hd].
+  rewrite (srv_obs_drop _ _ _ _ Hd). reflexivity.
+Qed.
+
 Lemma srv_nokey_oracle_on_model : forall c q oob,
+  s_fetcher c = true -> wf_layers q ->
   fetch_key (keyreq_of q) = None ->
   C13_srv_nokey_ok (s_local_port c) (s_conn_port c) socks sender q
     (reverse (h_path_type (rx_hdr q), h_path (rx_hdr q))) (obs_of c q oob) = true.
 Proof.
-  intros c q oob Hk. unfold C13_srv_nokey_ok, C13_srv_ok. cbv zeta.
+  intros c q oob Hfe Hwf Hk. unfold C13_srv_nokey_ok.
+  assert (Hlast : match carries_auth spi_client q with
+                  | Some _ => if for_service (s_local_port c) q then match obs_of c q oob with [] => true | _ => false end else true
+                  | None => true end = true).
+  { destruct (carries_auth spi_client q) as [a|] eqn:Hca; [|reflexivity].
+    destruct (for_service (s_local_port c) q) eqn:Hs; [|reflexivity].
+    destruct (for_service_inv _ _ Hs) as [s [n [p [Hu _]]]].
+    destruct (no_key_dropped c q oob a s n p Hfe (carries_auth_carries _ _ _ Hwf Hca) Hk Hu) as [why Hd].
+    rewrite (srv_obs_drop _ _ _ _ Hd). reflexivity. }
+  rewrite Hlast, andb_true_r. unfold C13_srv_ok. cbv zeta.
   rewrite (srv_clause_at_most_one c q oob), (srv_clause_addressing c q oob), (srv_clause_forward_due c q oob).
   destruct (carries_auth spi_client q) as [a|]; cbn [andb];
   (destruct (for_service (s_local_port c) q) eqn:Hs; [|reflexivity]);
@@ -895,7 +992,7 @@ Proof.
   (destruct (server_step c q oob) as [why|d t] eqn:HA; [reflexivity|]);
   (destruct d as [|host port];
    [cbn [srv_obs]; apply plain_no_srv_auth;
-    exact (unauth_reply_plain c q oob t s _ n p (server_auth_nokey c q Hk) Hl HA)
+    exact (unauth_reply_plain c q oob t s _ n p (fun k0 o0 => server_auth_nokey c q k0 o0 Hk) Hl HA)
    |exfalso; apply (forward_iff mac reverse fetch_key ntp_handle) in HA;
     destruct HA as [s0 [n0 [p0 [[_ [_ [_ [Hl' [_ [_ [_ [Hne _]]]]]]]] _]]]];
     rewrite Hl in Hl'; inversion Hl'; congruence]).
